@@ -152,9 +152,9 @@ def oracle_sec(which):
 REGISTRY = {
     'C04': {
         'theorems': ['PP.C04.sound', 'PP.C04.sound_plain', 'PP.C04.sound_pformat', 'PP.C04.sound_str', 'PP.Pr.evalStr_bounded',
-                     'PP.C04.ann_balanced', 'PP.C04.ann_balanced_pformat', 'PP.C04.render_trim',
+                     'PP.C04.ann_balanced', 'PP.C04.ann_balanced_pformat', 'PP.C04.render_trim', 'PP.checkLay_sound', 'PP.checkLay_iff',
                      'PP.lay_normalize', 'PP.run_sound', 'PP.Doc.size_normalize'],
-        'modules': ENGINE_MODULES + ['PP.Proofs.EvBound', 'PP.Props.C04'],
+        'modules': ENGINE_MODULES + ['PP.Proofs.EvBound', 'PP.Proofs.CheckSound', 'PP.Props.C04'],
         'sections': [{'name': 'engine', 'run': engine_section(classic=False)}],
         'replay': engine_replay,
         'rule': 'engine correspondence: exhaustive small documents x widths x ribbon fractions x strategies, plus seeded random documents',
